@@ -328,6 +328,17 @@ def run(facts, res):
                 if c_ is not None and c_.name in ("put", "push", "get_or_insert", "get_or_insert_mut", "pop", "clear", "pop_lru", "get_mut", "peek_mut") and \
                         "lru::LruCache" in c_.path and "melda::ArrayDescriptor" in " ".join(c_.args):
                     writers.add(ob.path)
+        # ... and even the reconstruction function only *adds* entries: a cached order is never handed out mutably (get_mut /
+        # peek_mut / iter_mut), removed or replaced in place - a later lookup of the same revision must find what was stored
+        for ob in facts.repo_bodies():
+            for bi, t in ob.calls():
+                c_ = t.callee
+                if c_ is not None and "lru::LruCache" in c_.path and "melda::ArrayDescriptor" in " ".join(c_.args) and \
+                        c_.name in ("get_mut", "peek_mut", "iter_mut", "pop", "pop_lru", "get_or_insert_mut", "clear", "demote", "promote"):
+                    res.violation("E3", "%s|cached-order-mutable:%s" % (ob.path, c_.name),
+                                  "%s calls %s on the array reconstruction cache: a cached order can be changed or removed after it was stored, so the next "
+                                  "reconstruction that starts from that revision uses a different order (the result depends on what was read before and on "
+                                  "the cache capacity)" % (ob.path, c_.name), ob.loc(t.line))
         res.instance("E3", "writers of the array reconstruction cache: %s" % sorted(writers), rb.loc())
         for wpath in sorted(writers - {rb.path}):
             res.violation("E3", "%s|foreign-cache-writer" % wpath,
